@@ -66,8 +66,18 @@ func c09Short(c *sim.Ctx) {
 	steps := 6 + t.Draw("steps", 24)
 	reorgs, warm, restarts := 0, 0, 0
 	for s := 0; s < steps; s++ {
-		op := t.Draw("op", 14)
+		op := t.Draw("op", 16)
 		switch {
+		case op >= 14 && len(p.m.Chain) > 0:
+			// a reorg as the very first thing after a start (the event index is initialised lazily)
+			p.restart(0, op == 14)
+			restarts++
+			depth := 1 + t.Draw("reorg.depth", 3)
+			for d := 0; d < depth && len(p.m.Chain) > 0; d++ {
+				p.revert()
+			}
+			reorgs++
+			c.Probe("reorg_first_thing_after_start")
 		case op <= 6 || len(p.m.Chain) == 0:
 			if len(p.m.Chain) >= maxBlocks {
 				continue
